@@ -115,7 +115,7 @@ theorem muggle_socket_create_c18 (f : Sched) (h : Heap) :
 
 /-- `muggle_socket_evloop_handle_init` -/
 theorem muggle_socket_evloop_handle_init_c18 (f : Sched) (h : Heap) :
-    InitContract ({ a := .own, b := .own } : Two) {} 2 0 2 f h (sockhInit f h) :=
+    InitContract ({ q := .own, mtx := .own } : SockH) {} 2 0 2 f h (sockhInit f h) :=
   sockhInit_contract f h
 
 /-- `muggle_async_logger_init` -/
@@ -200,6 +200,11 @@ theorem keyed_container_insert_c18 (f : Sched) (c : NC) (k : Nat) (h : Heap) (hc
 theorem muggle_evloop_add_ctx_c18 (f : Sched) (e : EvLoop) (h : Heap) (he : e.wf) :
     OpContract EvLoop.wf EvLoop.ownedMem EvLoop.ownedFds e h (evloopAdd f e h) :=
   evloopAdd_contract f e h he
+
+/-- `muggle_socket_evloop_add_ctx` (with the fix: reports whether the context was queued) -/
+theorem muggle_socket_evloop_add_ctx_c18 (f : Sched) (s : SockH) (h : Heap) (hs : s.wf) :
+    OpContractS SockH.wf SockH.owned zeroFd s h (sockhAddCtx f s h) :=
+  sockhAddCtx_contract f s h hs
 
 /-- `muggle_async_logger_log` (void): never `Err`, live counts unchanged under every schedule -/
 theorem muggle_async_logger_log_c18 (f : Sched) (h : Heap) :
@@ -306,7 +311,7 @@ theorem lifecycle_event_loop : LifeCycleOK evloopFam := lifeCycleOK_of_laws evlo
 theorem lifecycle_socket_evloop_pipe : LifeCycleOK evpipeFam := lifeCycleOK_of_laws evpipeFam_laws
 /-- socket create / close -/
 theorem lifecycle_socket : LifeCycleOK sockFam := lifeCycleOK_of_laws sockFam_laws
-/-- socket event-loop handle -/
+/-- socket event-loop handle: init / add_ctx / destroy -/
 theorem lifecycle_socket_evloop_handle : LifeCycleOK sockhFam := lifeCycleOK_of_laws sockhFam_laws
 /-- async logger: init / log / destroy -/
 theorem lifecycle_async_logger : LifeCycleOK alogFam := lifeCycleOK_of_laws alogFam_laws
